@@ -386,6 +386,7 @@ func evaluate(h *History, logf func(string, ...any)) (v verdict) {
 	var exits []int
 	classes := map[string]bool{}
 	changedBefore := false // the cold output changed between two runs of this history
+	memo := map[string]*runOut{}
 	touchN := 0
 	for i, a := range h.Actions {
 		classes["action_"+a.Kind] = true
@@ -408,6 +409,7 @@ func evaluate(h *History, logf func(string, ...any)) (v verdict) {
 			}
 		}
 		if a.Kind == "touch" {
+			memo = map[string]*runOut{}
 			p := filepath.Join(root, "m", a.Name)
 			if _, err := os.Stat(p); err == nil {
 				if a.Val == "rewrite" {
@@ -447,28 +449,38 @@ func evaluate(h *History, logf func(string, ...any)) (v verdict) {
 			}
 			merged[k] = true
 		}
-		fresh, err := os.MkdirTemp(root, "cache-fresh-")
-		if err != nil {
-			v.infra = err.Error()
-			return
-		}
-		if err := mergeCache(base, fresh); err != nil {
-			v.infra = "copying the std base: " + err.Error()
-			return
-		}
 		warm, err := staticcheck(mod, root, persist, st.Flags)
 		if err != nil {
 			v.infra = err.Error()
 			return
 		}
-		cold, err := staticcheck(mod, root, fresh, st.Flags)
-		if err != nil {
-			v.infra = err.Error()
-			return
+		ev.Count("staticcheck_runs", 1)
+		// The reference output of an identical (tree, flags) state seen earlier in
+		// this history is reused (dropped after every touch action); a mismatch
+		// is always re-examined with a new cold run below.
+		cold := memo[st.key()]
+		if cold == nil {
+			fresh, err := os.MkdirTemp(root, "cache-fresh-")
+			if err != nil {
+				v.infra = err.Error()
+				return
+			}
+			if err := mergeCache(base, fresh); err != nil {
+				v.infra = "copying the std base: " + err.Error()
+				return
+			}
+			cold, err = staticcheck(mod, root, fresh, st.Flags)
+			if err != nil {
+				v.infra = err.Error()
+				return
+			}
+			os.RemoveAll(fresh)
+			ev.Count("staticcheck_runs", 1)
+			memo[st.key()] = cold
+		} else {
+			ev.Count("run_reference_output_reused_from_identical_earlier_state", 1)
 		}
-		ev.Count("staticcheck_runs", 2)
 		ev.Count("runs", 1)
-		os.RemoveAll(fresh)
 
 		var hit, analysed []string
 		for id := range cold.analysed {
